@@ -32,6 +32,7 @@ type Core struct {
 	HeldStop   bool // Stop returns only when the director releases it (after its style's own wait)
 	HeldReload bool
 	HeldSub    bool // GetStateChan blocks until released
+	HeldPoll   bool // IsRunning() blocks until the director supplies the answer
 
 	mu        sync.Mutex
 	state     string
@@ -48,6 +49,8 @@ type Core struct {
 	StopRelease   chan struct{}
 	ReloadRelease chan struct{}
 	SubRelease    chan struct{}
+	PollRelease   chan bool
+	PollPending   atomic.Bool
 	ReloadTrig    chan struct{}
 	ShutdownTrig  chan struct{}
 	CtxDone       atomic.Bool // the context handed to Run was seen cancelled
@@ -59,7 +62,7 @@ func NewCore(idx int, rec *director.Recorder) *Core {
 		Idx: idx, Rec: rec, state: "New",
 		stopCh: make(chan struct{}), started: make(chan struct{}), done: make(chan struct{}),
 		RunRelease: make(chan RunResult, 1), StopRelease: make(chan struct{}, 1),
-		ReloadRelease: make(chan struct{}, 8), SubRelease: make(chan struct{}, 8),
+		ReloadRelease: make(chan struct{}, 8), SubRelease: make(chan struct{}, 8), PollRelease: make(chan bool),
 		ReloadTrig: make(chan struct{}), ShutdownTrig: make(chan struct{}),
 	}
 }
@@ -154,6 +157,18 @@ func (c *Core) State() string {
 type stCap struct{ c *Core }
 
 func (s stCap) IsRunning() bool {
+	if s.c.HeldPoll {
+		s.c.Rec.Emit("PollBegin %d", s.c.Idx)
+		s.c.PollPending.Store(true)
+		b := <-s.c.PollRelease
+		s.c.PollPending.Store(false)
+		v := 0
+		if b {
+			v = 1
+		}
+		s.c.Rec.Emit("Poll %d %d", s.c.Idx, v)
+		return b
+	}
 	b := s.c.ready.Load()
 	v := 0
 	if b {
